@@ -6,7 +6,7 @@ from vpv import VERIF, REPO, Undecided, Obligation, DISCHARGED, REFUTED, UNDECID
 
 VERUS_TRUST = [
     "rustc 1.98.1 front end + Verus 0.2026.09.13 (VC generation) + z3 (SMT back end)",
-    "the extractor's rewrite rules R0-R9 (lib/extract.py) — local, listed with hit counts in coverage.rewrite_rules_hit",
+    "the extractor's rewrite rules R0-R19 (lib/extract.py) — local, listed with hit counts in coverage.rewrite_rules_hit",
     "vstd specifications of Vec, slices, Option, Seq/Set/Map",
 ]
 
